@@ -11,11 +11,12 @@ has never seen another text (forked from a cache-free base).  Trace_BufCache.tla
 import json
 import os
 import random
+import re
 import subprocess
 
 from harness import jutil
 from harness.core import MachineryError, PY, VERIF, REPO
-from harness.tlc import run_tlc, validate_traces
+from harness.tlc import run_tlc, validate_traces, parse_tla
 
 META = dict(
     spec='BufCache.tla, Trace_BufCache.tla',
@@ -96,6 +97,189 @@ def make_history(rng, n, corpus):
     return steps
 
 
+# ---------------------------------------------------------------- spec -> code: what-if counterexamples replayed
+# Text families: the variants of one family differ only in a definition; the call line, the cursor and the
+# bracket position are the same in all of them (what jedi's signature time cache keys on).
+def _family(header_variants, tail, names_q, sig_q):
+    return {'texts': {str(i + 1): h + tail for i, h in enumerate(header_variants)}, 'names_q': names_q, 'sig_q': sig_q}
+
+
+FAMILIES = {
+    'function-params': _family(
+        ['def foo(a):\n    return 1\n', 'def foo(a, b):\n    return ""\n', 'def foo(*, key):\n    return 1.5\n'],
+        'y = foo()\ny\nx = foo(', ['infer', 4, 1], ['get_signatures', 5, 8]),
+    'method-params': _family(
+        ['class K:\n    def meth(self, a):\n        return 1\n', 'class K:\n    def meth(self, a, b=1):\n        return ""\n',
+         'class K:\n    def meth(self, *args):\n        return 1.5\n'],
+        'obj = K()\ny = obj.meth()\ny\nx = obj.meth(', ['infer', 6, 1], ['get_signatures', 7, 13]),
+    'multi-line-call': _family(
+        ['def foo(a, b):\n    return 1\n', 'def foo(a, b, c):\n    return ""\n', 'def foo(*a, **k):\n    return 1.5\n'],
+        'y = foo()\ny\nx = foo(1,\n        2, ', ['infer', 4, 1], ['get_signatures', 6, 11]),
+    'alias-switch': _family(
+        ['def g1(a):\n    return 1\ndef g2(a, b):\n    return ""\nfoo = g1\n', 'def g1(a):\n    return 1\ndef g2(a, b):\n    return ""\nfoo = g2\n',
+         'def g1(a):\n    return 1\ndef g2(*, k):\n    return ""\nfoo = g2\n'],
+        'y = foo()\ny\nx = foo(', ['infer', 7, 1], ['get_signatures', 8, 8]),
+    'class-init': _family(
+        ['class C:\n    def __init__(self, a):\n        self.v = 1\n', 'class C:\n    def __init__(self, a, b):\n        self.v = ""\n',
+         'class C:\n    pass\n\n'],
+        'y = C(0).v\ny\nx = C(', ['infer', 5, 1], ['get_signatures', 6, 6]),
+}
+
+
+def counterexample_behaviours(stdout, limit=200000):
+    """All counterexamples of a `-continue` run: [(init buf, [step...])] from the action labels of the traces."""
+    out = []
+    seen = set()
+    for block in stdout.split('Error: The behavior up to this point is:')[1:]:
+        init, steps = None, []
+        for m in re.finditer(r'State (\d+): <([^>]*)>\n((?:/\\ .*\n|  .*\n)*)', block):
+            label = m.group(2).split(' line ')[0]
+            if m.group(1) == '1':
+                b = re.search(r'/\\ buf = (.*)', m.group(3))
+                init = parse_tla(b.group(1))
+                continue
+            a = re.match(r'(\w+)(?:\((.*)\))?$', label)
+            name, args = a.group(1), [x.strip().strip('"') for x in (a.group(2) or '').split(',') if x.strip()]
+            if name == 'Edit':
+                steps.append(['edit', args[0], int(args[1])])
+            elif name == 'Tick':
+                steps.append(['tick'])
+            elif name == 'NewScript':
+                steps.append(['script', args[0]])
+            elif name == 'QueryNames':
+                steps.append(['names'])
+            elif name == 'QuerySig':
+                steps.append(['sig'])
+            else:
+                raise MachineryError('unknown action label %r' % label)
+        if init is None or not steps:
+            continue
+        key = json.dumps([init, steps], sort_keys=True)
+        if key not in seen:
+            seen.add(key)
+            out.append((init, steps))
+        if len(out) >= limit:
+            break
+    return out
+
+
+def replay_model_behaviours(ctx, quick, rng):
+    """Every what-if of BufCache.tla that TLC refutes yields counterexample behaviours: histories on which a design
+    with that deviation answers from a stale text.  They are executed on the real code (one process, virtual clock)
+    and Trace_BufBehaviour.tla judges the recorded steps against the model as coded."""
+    from harness import cache_worker as cw
+    behaviours = []
+    for label, kw, share, clock in [('comparable signature cache key', dict(sig='TRUE'), 0.7, 2),
+                                    ('derived caches keyed on the slot', dict(key='slot'), 0.3, 0)]:
+        r = run_tlc('BufCache', cfg(ctx, 'wi_enum.cfg', '1, 2', 2 if quick else 3, clock if quick else 2, **kw), workers=1, timeout=1500, extra=('-continue',))
+        ctx.add_tlc(r, 'what-if enumeration: %s (all counterexamples)' % label)
+        bs = counterexample_behaviours(r.stdout)
+        if len(bs) < 40:
+            raise MachineryError('what-if "%s" produced only %d counterexample behaviours' % (label, len(bs)))
+        ctx.coverage['whatif_counterexamples: ' + label] = len(bs)
+        rng.shuffle(bs)
+        n = int((260 if quick else 4000) * share)
+        behaviours += [(label, b) for b in bs[:n]]
+    fams = sorted(FAMILIES)
+    proj = ctx.sub('mproj')
+    jobs = []
+    for i, (label, (init, steps)) in enumerate(behaviours):
+        fam = fams[i % len(fams)]
+        a, b = rng.sample([1, 2, 3], 2)               # the model's two texts are two of the family's three variants
+        tmap = {1: a, 2: b}
+        init = {s: tmap[t] for s, t in init.items()}
+        steps = [[st[0], st[1], tmap[st[2]]] if st[0] == 'edit' else st for st in steps]
+        full = [['edit', s, init[s]] for s in sorted(init)] + steps
+        jobs.append({'family': fam, 'steps': full, 'label': label, 'init': init})
+    # fresh-process reference answers: F(text) for every family x text x slot
+    fresh_cases, fkey = [], {}
+    for fam in fams:
+        for t, text in FAMILIES[fam]['texts'].items():
+            for slot in ('nopath', 'p1'):
+                path = None if slot == 'nopath' else os.path.join(proj, slot + '.py')
+                fkey[(fam, int(t), slot)] = len(fresh_cases)
+                fresh_cases.append({'src': text, 'path': path, 'project': proj,
+                                    'queries': [FAMILIES[fam]['names_q'], FAMILIES[fam]['sig_q']]})
+    fresh = cw.fresh_answers(fresh_cases)
+    for fr in fresh:
+        if fr is None or 'error' in fr:
+            raise MachineryError('fresh worker failed: %s' % fr)
+    # the families must be able to tell the texts apart, else the replay is vacuous
+    for fam in fams:
+        for qi in (0, 1):
+            if len(set(fresh[fkey[(fam, t, 'p1')]]['answers'][qi][0] for t in (1, 2, 3))) < 2:
+                raise MachineryError('family %s: query %d does not distinguish the texts' % (fam, qi))
+    nshard = 8
+    d = ctx.sub('mbeh')
+    env = dict(os.environ, VERIF_REPO=REPO, PYTHONPATH=REPO + os.pathsep + VERIF)
+    procs = []
+    for k in range(nshard):
+        jp, op = os.path.join(d, 'j%d.json' % k), os.path.join(d, 'o%d.json' % k)
+        with open(jp, 'w') as f:
+            json.dump([{'families': FAMILIES, 'behaviours': jobs[k::nshard], 'project': proj, 'tick': 3.5}], f)
+        procs.append((subprocess.Popen([PY, os.path.join(VERIF, 'harness', 'cache_worker.py'), 'model', jp, op], env=env,
+                                       stdout=subprocess.PIPE, stderr=subprocess.STDOUT), op))
+    results = [None] * len(jobs)
+    for k, (p, op) in enumerate(procs):
+        so, _ = p.communicate(timeout=3000)
+        if p.returncode != 0:
+            raise MachineryError('model-behaviour worker failed: %s' % so.decode()[-1500:])
+        for j, r in enumerate(json.load(open(op))[0]):
+            results[k + j * nshard] = r
+    traces = []
+    nq = 0
+    for job, res in zip(jobs, results):
+        ev = [{'act': 'init', 'init': {'nopath': 0, 'p1': 0}}]
+        qi = 0
+        for st in job['steps']:
+            if st[0] == 'edit':
+                ev.append({'act': 'edit', 'slot': st[1], 'text': st[2]})
+            elif st[0] == 'tick':
+                ev.append({'act': 'tick'})
+            elif st[0] == 'script':
+                ev.append({'act': 'script', 'slot': st[1]})
+            else:
+                got = res[qi]
+                qi += 1
+                nq += 1
+                want = fresh[fkey[(job['family'], got['text'], got['slot'])]]['answers'][0 if st[0] == 'names' else 1]
+                ev.append({'act': st[0], 'same': got['answer'][0] == want[0]})
+                if got['answer'][0] != want[0]:
+                    job.setdefault('diffs', []).append({'query': st[0], 'slot': got['slot'], 'text': got['text'],
+                                                        'got': got['answer'][2], 'fresh_process': want[2]})
+        traces.append(ev)
+    ctx.coverage['model_behaviours_replayed'] = len(jobs)
+    ctx.coverage['model_behaviour_queries'] = nq
+    p = os.path.join(ctx.tmp, 'tbb.cfg')
+    with open(p, 'w') as f:
+        f.write(TCFG.replace('Texts = {}', 'Texts = {1, 2, 3}').replace('MaxClock = 1', 'MaxClock = 50'))
+    vs = validate_traces('Trace_BufBehaviour', p, traces, ctx, 'Trace_BufBehaviour', chunk=1000)
+    for v, job in zip(vs, jobs):
+        if not v['accepted']:
+            why = ','.join(v['why'] or ['?'])
+            if why != 'AnswerNotFromCurrentText':
+                raise MachineryError('model behaviour not replayable: %s at %s: %s' % (why, v['at'], job['steps']))
+            q = (job.get('diffs') or [{}])[0].get('query', '?')
+            ctx.violation('model-behaviour:%s:%s:%s' % (why, q, job['family']),
+                          'a behaviour of BufCache.tla (counterexample of the what-if "%s") executed on the real code gives an '
+                          'answer that a fresh process does not give for the same text' % job['label'],
+                          {'family': job['family'], 'texts': FAMILIES[job['family']]['texts'], 'steps': job['steps'],
+                           'differences': job.get('diffs', [])[:3]})
+    # binding self-test: a stale answer must be rejected
+    import copy
+    bad = None
+    for t in traces:
+        if any(e['act'] in ('names', 'sig') for e in t):
+            bad = copy.deepcopy(t)
+            [e for e in bad if e['act'] in ('names', 'sig')][-1]['same'] = False
+            break
+    n0 = ctx.coverage['traces_validated_against_impl']
+    bv = validate_traces('Trace_BufBehaviour', p, [bad], ctx, 'binding self-test (model behaviour)')
+    ctx.coverage['traces_validated_against_impl'] = n0
+    if bv[0]['accepted']:
+        raise MachineryError('binding self-test: stale answer in a model behaviour accepted')
+
+
 CFG = '''SPECIFICATION Spec
 CONSTANTS
   Slots = {"nopath", "p1"}
@@ -156,6 +340,8 @@ def run(ctx):
         if not r.violated:
             raise MachineryError('what-if "%s" did not fail: model insensitive' % label)
         ctx.coverage['whatif: ' + label] = 'violates %s' % r.violated
+    # ---- 1b. behaviours of the model executed on the real code
+    replay_model_behaviours(ctx, quick, rng)
     # ---- 2. real histories in one process
     corpus = []
     for f in jutil.corpus_files(limit=12 if quick else 40, rng=rng):
